@@ -2518,6 +2518,20 @@ fn start_watchdog(dir: std::path::PathBuf) {
         if let Some((t0, case, src)) = cur {
             if t0.elapsed().as_secs() >= 20 {
                 use std::io::Write;
+                // the main thread is stuck inside the implementation: what its buffered writers have put on
+                // disk may end in the middle of a line. Keep complete lines only (the same number of request
+                // and answer lines).
+                let complete = |name: &str| -> Vec<String> {
+                    let text = std::fs::read(dir.join(name)).map(|b| String::from_utf8_lossy(&b).to_string()).unwrap_or_default();
+                    let upto = text.rfind('\n').map(|k| k + 1).unwrap_or(0);
+                    text[..upto].lines().map(|l| l.to_string()).collect()
+                };
+                let (req, imp, orc) = (complete("req.txt"), complete("impl.txt"), complete("oracle.jsonl"));
+                let n = req.len().min(imp.len());
+                let join = |v: &[String]| v.iter().map(|l| format!("{}\n", l)).collect::<String>();
+                let _ = std::fs::write(dir.join("req.txt"), join(&req[..n]));
+                let _ = std::fs::write(dir.join("impl.txt"), join(&imp[..n]));
+                let _ = std::fs::write(dir.join("oracle.jsonl"), join(&orc));
                 if let Ok(mut f) = std::fs::OpenOptions::new().append(true).create(true).open(dir.join("oracle.jsonl")) {
                     let _ = writeln!(
                         f,
